@@ -158,6 +158,7 @@ type World struct {
 	started        bool
 	capReason      string
 	bootedInc      int
+	bootOK         map[int]bool
 	drawTrace      []uint64
 	clientsRunning int
 	notes          []string
@@ -178,6 +179,7 @@ func NewWorld(cfg *Config, follow []Choice, strict bool) *World {
 		dsts:       map[string]*DstSys{},
 		procs:      map[string]*ProcSys{},
 		prio:       map[string]int{},
+		bootOK:     map[int]bool{},
 		stopOnViol: true,
 	}
 	w.inc = 1
